@@ -540,6 +540,7 @@ func runC11(cfg Config) {
 		}
 		os.RemoveAll(dir)
 	}
+	runC11Conc(cfg, rep, m, rng)
 	c11CLI(cfg, rep, rng)
 	rep.Write(cfg.Out)
 }
